@@ -142,7 +142,7 @@ def r1c_control_containment(a, tier):
     rep = RuleReport(
         'C01.R1c',
         'OptionSucceeded is raised only by ParseContext.option, and every `with <ctx>.option()` site is lexically '
-        'inside `with suppress(OptionSucceeded)` with no frame push in between, or is ChoiceContext.parse whose '
+        'inside `with suppress(OptionSucceeded)` (or a try whose `except OptionSucceeded` handler does not re-raise), or is ChoiceContext.parse whose '
         'caller choice() invokes it inside suppress(OptionSucceeded)',
         floor=3,
     )
@@ -169,8 +169,12 @@ def r1c_control_containment(a, tier):
                     if isinstance(ce, ast.Call) and dotted(ce.func).split('.')[-1] == 'suppress' and any(
                             dotted(x).split('.')[-1] == 'OptionSucceeded' for x in ce.args):
                         return True
-                for s in par.body:
-                    pass
+            if isinstance(par, ast.Try) and any(cur is s_ or any(x is cur for x in ast.walk(s_)) for s_ in par.body):
+                # try: with option(): ...  except OptionSucceeded: <no re-raise>   - the same containment written with a handler
+                for h in par.handlers:
+                    names = [] if h.type is None else [dotted(t).split('.')[-1] for t in (h.type.elts if isinstance(h.type, ast.Tuple) else [h.type])]
+                    if 'OptionSucceeded' in names and not any(isinstance(x, ast.Raise) for x in ast.walk(h)):
+                        return True
             cur = par
         return False
 
@@ -628,26 +632,30 @@ def r4_progress(a, tier):
         floor=2,
     )
     fn = a.p.func(f'{CTX}.repeat')
+    ext = a.extents.of(fn)   # repeat() and the private helpers that exist only for it
     saved: set[str] = set()
-    for n in walk_no_defs(fn.node):
+    for _f, n in a.extents.walk(fn):
         if isinstance(n, ast.Assign) and norm(n.value) == 'self.pos' and isinstance(n.targets[0], ast.Name):
             saved.add(n.targets[0].id)
+
+    def origin(f, e):
+        return a.extents.param_origin(fn, f, e.id) if isinstance(e, ast.Name) else None
 
     class Sem(Semantics):
         def call(self, ex, f, node, state):
             nm = dotted(node.func)
-            if f is fn and nm in ('self.isolate', 'self._isolate') and node.args and norm(node.args[0]) == fn.params[1]:
+            if ex.in_extent(f) and nm in ('self.isolate', 'self._isolate') and node.args and origin(f, node.args[0]) == fn.params[1]:
                 state = frozenset((state - {'checked'}) | {'iterated'})
             if nm.split('.')[-1] == 'OptionSucceeded' and 'iterated' in state and 'checked' not in state:
                 state = frozenset(state | {'unchecked_success'})
             return ex.default_call(f, node, state)
 
         def test(self, ex, f, test, state):
-            if f is fn and isinstance(test, ast.Compare) and len(test.ops) == 1 and isinstance(test.ops[0], (ast.Eq, ast.LtE)):
+            if ex.in_extent(f) and isinstance(test, ast.Compare) and len(test.ops) == 1 and isinstance(test.ops[0], (ast.Eq, ast.LtE)):
                 l, r = norm(test.left), norm(test.comparators[0])
                 if {l, r} & {'self.pos'} and ({l, r} - {'self.pos'}) <= saved and ({l, r} - {'self.pos'}):
                     return [frozenset(state | {'no_progress'})], [frozenset(state | {'checked'})]
-            if f is fn and isinstance(test, ast.Compare) and len(test.ops) == 1 and isinstance(test.ops[0], (ast.NotEq, ast.Gt)):
+            if ex.in_extent(f) and isinstance(test, ast.Compare) and len(test.ops) == 1 and isinstance(test.ops[0], (ast.NotEq, ast.Gt)):
                 l, r = norm(test.left), norm(test.comparators[0])
                 if {l, r} & {'self.pos'} and ({l, r} - {'self.pos'}) <= saved and ({l, r} - {'self.pos'}):
                     return [frozenset(state | {'checked'})], [frozenset(state | {'no_progress'})]
@@ -658,29 +666,46 @@ def r4_progress(a, tier):
     bad = [o for o in outs if 'unchecked_success' in o.state]
     # the no-progress branch must not reach the success signal either
     silent = [o for o in outs if 'no_progress' in o.state and 'unchecked_success' in o.state]
-    rep.add({'fn': fn.qualname, 'saved_position_vars': sorted(saved), 'outcomes': len(outs),
+    rep.add({'fn': fn.qualname, 'extent': [f.name for f in ext], 'saved_position_vars': sorted(saved), 'outcomes': len(outs),
              'iteration_success_always_after_progress_check': not bad})
     if bad or silent:
         rep.fail(fn.qualname, 'no-progress-check', 'an iteration of repeat() can succeed without the position having been '
                  'compared with the position at its start: a body that matches the empty string loops forever', fn.loc)
-    # the saved position is the one at the START of the iteration: bound inside the loop, before the separator and the
-    # element are evaluated (the documented expansion s%{e} = [e {s e}] counts the separator as progress)
-    loops = [n for n in walk_no_defs(fn.node) if isinstance(n, (ast.While, ast.For))]
-    evals = [n for lp in loops for n in ast.walk(lp) if isinstance(n, ast.Call) and (
-        any(isinstance(x, ast.Name) and x.id in fn.params[1:3] for x in n.args) or (isinstance(n.func, ast.Name) and n.func.id in fn.params[1:3]))]
+    # the saved position is the one at the START of the iteration: bound once per iteration (inside the loop, or in a helper the
+    # loop calls each time round), before the separator and the element are evaluated (the documented expansion
+    # s%{e} = [e {s e}] counts the separator as progress)
+    p_names = set(fn.params[1:3])
     cmp_vars = set()
-    for n in walk_no_defs(fn.node):
+    for _f, n in a.extents.walk(fn):
         if isinstance(n, ast.Compare) and len(n.ops) == 1:
             l, r = norm(n.left), norm(n.comparators[0])
             if 'self.pos' in (l, r):
                 cmp_vars |= ({l, r} - {'self.pos'}) & saved
+
+    def per_iteration_scopes(f):
+        """the regions of F that run once per iteration: loops of F; the whole body when F is a helper invoked from a loop of
+        the extent (in its body or its test)"""
+        scopes = [n for n in walk_no_defs(f.node) if isinstance(n, (ast.While, ast.For))]
+        if f is not fn:
+            for g in ext:
+                for lp in [n for n in walk_no_defs(g.node) if isinstance(n, (ast.While, ast.For))]:
+                    if any(isinstance(x, ast.Call) and isinstance(x.func, ast.Attribute) and x.func.attr == f.name for x in ast.walk(lp)):
+                        scopes.append(f.node)
+        return scopes
     for v in sorted(cmp_vars):
-        binds = [n for lp in loops for n in ast.walk(lp) if isinstance(n, ast.Assign) and isinstance(n.targets[0], ast.Name)
-                 and n.targets[0].id == v]
-        first_eval = min(((e.lineno, e.col_offset) for e in evals), default=None)
-        ok = bool(binds) and first_eval is not None and all((b.lineno, b.col_offset) < first_eval for b in binds)
-        rep.add({'fn': fn.qualname, 'start_position_var': v, 'bound_in_loop_before_separator_and_element': ok})
-        if not ok:
+        ok_any = False
+        for f in ext:
+            scopes = per_iteration_scopes(f)
+            binds = [n for sc in scopes for n in ast.walk(sc) if isinstance(n, ast.Assign) and isinstance(n.targets[0], ast.Name)
+                     and n.targets[0].id == v and norm(n.value) == 'self.pos']
+            if not binds:
+                continue
+            evals = [n for sc in scopes for n in ast.walk(sc) if isinstance(n, ast.Call) and (
+                any(origin(f, x) in p_names for x in n.args) or origin(f, n.func) in p_names)]
+            first_eval = min(((e.lineno, e.col_offset) for e in evals), default=None)
+            ok_any = first_eval is not None and all((b_.lineno, b_.col_offset) < first_eval for b_ in binds)
+        rep.add({'fn': fn.qualname, 'start_position_var': v, 'bound_once_per_iteration_before_separator_and_element': ok_any})
+        if not ok_any:
             rep.fail(fn.qualname, f'late-marker:{v}', f'the position `{v}` that the no-progress test of repeat() compares with is not taken at '
                      f'the start of the iteration (inside the loop, before the separator and the element are evaluated): an iteration '
                      f'whose separator consumed input but whose element matched empty is rejected, so `s%{{e}}` differs from [e {{s e}}]',
@@ -689,12 +714,12 @@ def r4_progress(a, tier):
         rep.fail(fn.qualname, 'no-marker', 'repeat() compares the position with no saved start position', fn.loc)
     # no-progress branch raises
     raises_on_equal = False
-    for n in walk_no_defs(fn.node):
+    for _f, n in a.extents.walk(fn):
         if isinstance(n, ast.If) and isinstance(n.test, ast.Compare):
             l, r = norm(n.test.left), norm(n.test.comparators[0])
             if 'self.pos' in (l, r) and ({l, r} - {'self.pos'}) <= saved:
                 branch = n.body if isinstance(n.test.ops[0], (ast.Eq, ast.LtE)) else n.orelse
-                raises_on_equal = any(isinstance(x, ast.Raise) for s in branch for x in ast.walk(s))
+                raises_on_equal = any(isinstance(x, ast.Raise) for s_ in branch for x in ast.walk(s_))
     rep.add({'no_progress_branch_raises': raises_on_equal})
     if not raises_on_equal:
         rep.fail(fn.qualname, 'no-progress-raise', 'the equal-position branch of repeat() does not raise', fn.loc)
